@@ -597,6 +597,9 @@ func runFrame(fr *frame) {
 		case pathEnd, unsupported, exitPanic:
 			panic(fr.panic) // engine control flow: never visible to the target
 		}
+		if fr.i.ps.panicSite == "" {
+			fr.i.ps.panicSite = fr.fn.String()
+		}
 		if fr.i.mode&EnableTracing != 0 {
 			fmt.Fprintf(os.Stderr, "Panicking: %T %v.\n", fr.panic, fr.panic)
 		}
@@ -678,6 +681,7 @@ func doRecover(caller *frame) value {
 		caller.caller.panicking = false
 		p := caller.caller.panic
 		caller.caller.panic = nil
+		caller.i.ps.recoveredSite, caller.i.ps.panicSite = caller.i.ps.panicSite, ""
 
 		// TODO(adonovan): support runtime.Goexit.
 		switch p := p.(type) {
